@@ -11,6 +11,7 @@ configurations (repaired design, current tree, offsets as writer.go).
 import copy
 import json
 import os
+import random
 import shutil
 from concurrent.futures import ThreadPoolExecutor
 
@@ -45,6 +46,8 @@ def design_check(ctx, notes):
     """TLC on GltfWriter itself. Returns nothing; raises Infra when the model disagrees with
     what is established about the code (a model bug, never a verdict)."""
     runs = [("GltfWriterFixed.cfg", None), ("GltfWriterCode.cfg", None), ("GltfWriterUnaligned.cfg", "L2Aligned")]
+    # export histories in one process: the pool of payload buffers as a design constant
+    sess = [("GltfSessionFresh.cfg", None), ("GltfSessionReset.cfg", None), ("GltfSessionDirty.cfg", "SessionContract")]
     if ctx.tier == "thorough":
         runs += [("GltfWriterPinnedEq.cfg", "L2MatRef"), ("GltfWriterPinnedOnce.cfg", "L2MatOnce")]
         # a deeper bound on the repaired design and on the current tree
@@ -60,9 +63,11 @@ def design_check(ctx, notes):
         cfg, expect = item
         name = os.path.basename(cfg)
         files = [(cfg, name)] if os.path.isabs(cfg) else []
-        r = core.run_tlc(ctx.scratch("design-" + name), "GltfWriter", name, files=files, workers=2, timeout=1200, heap="4g")
+        module = "GltfSession" if name.startswith("GltfSession") else "GltfWriter"
+        r = core.run_tlc(ctx.scratch("design-" + name), module, name, files=files, workers=2, timeout=1200, heap="4g")
         return name, expect, r
 
+    runs += sess
     with ThreadPoolExecutor(max_workers=max(1, min(len(runs), core.NCPU // 2))) as ex:
         results = list(ex.map(one, runs))
     design = {}
@@ -70,12 +75,13 @@ def design_check(ctx, notes):
         ctx.add_tlc(r)
         design[name] = {"states": r.distinct, "transitions": r.generated, "violated": r.violated}
         if expect is None and r.rc != 0:
-            raise core.Infra("GltfWriter/%s: design property %s fails on a configuration that must satisfy it (model bug)" %
+            raise core.Infra("%s: design property %s fails on a configuration that must satisfy it (model bug)" %
                              (name, r.violated))
         if expect is not None and r.violated != expect:
-            raise core.Infra("GltfWriter/%s: expected the counterexample to %s, TLC reported %s" % (name, expect, r.violated))
+            raise core.Infra("%s: expected the counterexample to %s, TLC reported %s" % (name, expect, r.violated))
     notes["design"] = design
     notes["l2_unaligned_counterexample"] = design["GltfWriterUnaligned.cfg"]["violated"] == "L2Aligned"
+    notes["session_dirty_pool_counterexample"] = design["GltfSessionDirty.cfg"]["violated"] == "SessionContract"
 
 
 # --------------------------------------------------------------------------
@@ -298,6 +304,214 @@ def confirm(ctx, vh, findings):
     for i, s in enumerate(sigs):
         if (i, s) not in got:
             raise core.Infra("finding %s did not reproduce when its scene was executed again" % s)
+
+
+
+# --------------------------------------------------------------------------
+# export histories within one process (specs/GltfSession.tla -> vh gltf-session-exec -> specs/TraceGltfSession.tla)
+# --------------------------------------------------------------------------
+
+SESSION_ENTRIES = ["WriteBinary", "WriteText", "SaveBinary", "SaveText", "Save", "FromScene+WriteGLB", "FromScene+ToGLTF",
+                   "AddScene+WriteGLB"]
+SESSION_FAILS = ["nilmesh", "alphacutoff", "anim"]
+
+
+def _q(xs):
+    return "{" + ", ".join('"%s"' % x for x in xs) + "}"
+
+
+def session_plan(tier):
+    """(name, constants, simulate-args|None)"""
+    base = dict(PoolPolicy='"fresh"', Entries=_q(SESSION_ENTRIES), FailKinds=_q(SESSION_FAILS))
+    if tier == "quick":
+        return [
+            # every (export, valid export) pair over all entry points: 56 x 8
+            ("pairs", dict(base, ShapeIds={2}, MaxPos=1, MaxLen=2), None),
+            ("walks", dict(base, ShapeIds={1, 2, 3, 4}, MaxPos=3, MaxLen=3), dict(num=12, depth=5, cap=150)),
+        ]
+    return [
+        ("pairs", dict(base, ShapeIds={2, 3}, MaxPos=2, MaxLen=2), None),
+        ("walks", dict(base, ShapeIds={1, 2, 3, 4}, MaxPos=3, MaxLen=3), dict(num=300, depth=5, cap=3000)),
+        ("walks4", dict(base, ShapeIds={1, 2, 3, 4}, MaxPos=3, MaxLen=4), dict(num=300, depth=6, cap=3000)),
+    ]
+
+
+def generate_histories(ctx, notes):
+    d = ctx.scratch("sess-cfg")
+    plan = session_plan(ctx.tier)
+
+    def one(item):
+        name, consts, sim = item
+        cfg = os.path.join(d, "Sess_%s.cfg" % name)
+        _cfg(cfg, consts, [], emit="EmitLeaf" if sim else "Emit")
+        if sim:
+            kw = dict(simulate="num=%d" % sim["num"], depth=sim["depth"], seed=ctx.seed, workers=1)
+        else:
+            kw = dict(workers=2)
+        r = core.run_tlc(ctx.scratch("sess-gen-" + name), "GltfSession", os.path.basename(cfg), files=[(cfg, os.path.basename(cfg))],
+                         timeout=900, heap="4g", **kw)
+        if r.rc != 0:
+            raise core.Infra("generator GltfSession/%s failed (%s)" % (name, r.violated))
+        return name, sim, r
+
+    with ThreadPoolExecutor(max_workers=len(plan)) as ex:
+        results = list(ex.map(one, plan))
+    hists, seen, per = [], set(), {}
+    for name, sim, r in results:
+        got = []
+        for v in r.values:
+            if not (isinstance(v, dict) and "session" in v):
+                continue
+            key = json.dumps(v, sort_keys=True)
+            if key in seen:
+                continue
+            seen.add(key)
+            v["concurrent"] = False
+            got.append(v)
+        if sim and len(got) > sim["cap"]:
+            # -simulate evaluates the invariant on every candidate successor of a walk: a seeded sample of what it printed
+            got = random.Random(ctx.seed).sample(got, sim["cap"])
+        hists += got
+        per[name] = len(got)
+        if sim:
+            ctx.transitions += r.generated
+        else:
+            ctx.add_tlc(r)
+    if not hists:
+        raise core.Infra("GltfSession printed no history")
+    # extra history kind: valid exports of the histories above, all at once (one goroutine each)
+    valid, vseen = [], set()
+    for h in hists:
+        for e in h["session"]:
+            k = json.dumps([e["entry"], e["scene"]["models"]], sort_keys=True)
+            if e["expect"] == "OK" and k not in vseen:
+                vseen.add(k)
+                valid.append(e)
+    nconc = 12 if ctx.tier == "quick" else 200
+    conc = []
+    for i in range(nconc):
+        pick = [valid[(ctx.seed * 7 + i * 5 + j * 3) % len(valid)] for j in range(6)]
+        conc.append({"session": pick, "concurrent": True})
+    per["concurrent"] = len(conc)
+    notes["generated_histories"] = per
+    return hists + conc
+
+
+def _after(exports, i):
+    """(fk, fd, j): the nearest failed export executed in the process before export i."""
+    for j in range(i - 1, -1, -1):
+        if exports[j]["expect"] == "FAIL":
+            return exports[j]["fk"], exports[j]["fd"], j
+    return "none", 0, -1
+
+
+def session_exec_and_judge(ctx, vh, hists, name="session"):
+    """Executes all histories in ONE process, TLC judges every export. Returns (findings, exercised, nlines, stats)."""
+    d = ctx.scratch(name + "-exec")
+    cp, tp = os.path.join(d, "histories.ndjson"), os.path.join(d, "trace.ndjson")
+    core.write_ndjson(cp, hists)
+    core.run_vh(vh, ["gltf-session-exec", "-in", cp, "-out", tp], timeout=1500)
+    with open(tp) as f:
+        raw = f.readlines()
+    if len(raw) != sum(len(h["session"]) for h in hists):
+        raise core.Infra("gltf-session-exec wrote %d lines for %d exports" % (len(raw), sum(len(h["session"]) for h in hists)))
+    heads = []
+    for ln in raw:
+        try:
+            heads.append(json.loads(ln[:ln.index(',"src"')] + "}"))
+        except ValueError:
+            raise core.Infra("gltf-session-exec wrote a line without a header")
+    results = core.validate_sharded(ctx, name, "TraceGltfSession", "TraceGltfSession.cfg", raw, is_boundary=lambda ln: True,
+                                    timeout=1500, heap="3g")
+    verdicts, base = [], 0
+    for sh, r in results:
+        got = {v["l"]: v for v in r.values if isinstance(v, dict) and "bad" in v and "l" in v}
+        if len(got) != len(sh):
+            raise core.Infra("session judge printed %d verdicts for %d lines" % (len(got), len(sh)))
+        verdicts += [got[i + 1] for i in range(len(sh))]
+        base += len(sh)
+    findings, ex = [], {}
+    stats = {"valid_after_failure_with_payload": 0, "valid_exports": 0, "refused_exports": 0}
+    for i, (hd, v) in enumerate(zip(heads, verdicts)):
+        for e in v["ex"]:
+            ex[e] = ex.get(e, 0) + 1
+        hist = hists[hd["h"]]
+        if hd["expect"] == "OK":
+            stats["valid_exports"] += 1
+            if i > 0 and heads[i - 1]["expect"] == "FAIL" and heads[i - 1]["fd"] >= 1 and not hist["concurrent"]:
+                stats["valid_after_failure_with_payload"] += 1
+        else:
+            stats["refused_exports"] += 1
+        if not v["bad"]:
+            continue
+        fk, fd, j = _after(heads, i)
+        for pred in v["bad"]:
+            if hist["concurrent"]:
+                where = "%s-concurrent" % hd["entry"]
+            elif pred == "C06.SessionOutcome":
+                dets = sorted(x.split(":", 1)[1] for x in v["det"] if x.startswith("SessionOutcome:"))
+                where = "%s-%s@%d-%s" % (hd["entry"], hd["fk"], hd["fd"], "+".join(dets))
+            else:
+                where = "%s-after-%s@%d" % (hd["entry"], fk, fd)
+            # replay: the whole history (and the history of the failed export before it, when that is another one)
+            need = [hist]
+            if j >= 0 and heads[j]["h"] != hd["h"]:
+                need = [hists[heads[j]["h"]], hist]
+            findings.append({"pred": pred, "sig": "%s/session:%s" % (pred, where), "histories": need, "entry": hd["entry"],
+                             "h": hd["h"], "p": hd["p"], "after": "%s@%d" % (fk, fd), "base": signature(pred, v["det"])})
+    ctx.traces += len(hists)
+    ctx.evaluations += len(raw)
+    return findings, ex, len(raw), stats
+
+
+def session_report(ctx, findings):
+    for f in findings:
+        if f["pred"].startswith("Harness."):
+            raise core.Infra("harness inconsistency %s on export %d of history %d" % (f["pred"], f["p"], f["h"]))
+    seen = set()
+    for f in findings:
+        if not f["pred"].startswith(PID + ".") or f["sig"] in seen:
+            continue
+        seen.add(f["sig"])
+        what = ("%s rejected export %d (%s) of a history of %d exports executed in one process; the failed export before it: %s "
+                "(kind@models already in the payload); as a single scene the predicate reads %s" %
+                (f["pred"], f["p"], f["entry"], len(f["histories"][-1]["session"]), f["after"], f["base"]))
+        ctx.violation(f["sig"], what, {"family": "gltf", "session": {"histories": f["histories"]}, "pred": f["pred"]})
+
+
+def session_confirm(ctx, vh, findings):
+    """Every distinct signature is re-executed from its replay object (whole histories, a new process)."""
+    firsts = {}
+    for f in findings:
+        if f["pred"].startswith(PID + "."):
+            firsts.setdefault(f["sig"], f)
+    for n, (sig, f) in enumerate(sorted(firsts.items())[:6]):
+        for attempt in range(3):
+            again, _, _, _ = session_exec_and_judge(ctx, vh, f["histories"], name="session-confirm-%d-%d" % (n, attempt))
+            if any(a["sig"] == sig for a in again):
+                break
+        else:
+            raise core.Infra("session finding %s did not reproduce when its histories were executed again (3 attempts)" % sig)
+
+
+SESSION_REQUIRED = ["session-written", "session-refused-nilmesh", "session-refused-alphacutoff", "session-refused-anim", "glb", "text",
+                    "multi-model", "instances", "empty-model-skipped", "mesh-pointer-shared"]
+
+
+def session_stage(ctx, vh, notes):
+    hists = generate_histories(ctx, notes)
+    findings, ex, nlines, stats = session_exec_and_judge(ctx, vh, hists)
+    session_confirm(ctx, vh, findings)
+    notes["session"] = dict(stats, histories=len(hists), lines_judged=nlines, exercised=dict(sorted(ex.items())))
+    by = {}
+    for f in findings:
+        by[f["sig"]] = by.get(f["sig"], 0) + 1
+    notes["session_rejections_by_signature"] = by
+    missing = [t for t in SESSION_REQUIRED if ex.get(t, 0) == 0]
+    if not findings and (missing or stats["valid_after_failure_with_payload"] == 0):
+        raise core.Infra("vacuity guard (session): not exercised %s, valid exports right after a failure with payload: %d" %
+                         (missing, stats["valid_after_failure_with_payload"]))
+    return findings
 
 
 # --------------------------------------------------------------------------
@@ -531,6 +745,7 @@ def run(ctx):
     cases += random_cases(ctx, vh, notes)
     findings, ex, nlines = execute_and_judge(ctx, vh, cases)
     confirm(ctx, vh, findings)
+    sfindings = session_stage(ctx, vh, notes)
     if ctx.tier == "thorough":
         self_test(ctx, vh, notes)
     ctx.extra.update(notes)
@@ -553,6 +768,7 @@ def run(ctx):
         ctx.sample({"tag": c["tag"], "models": [dict(mesh=m["mesh"], mat=m["mat"], inst=len(m["inst"])) for m in c["models"]],
                     "lights": len(c["lights"])})
     report(ctx, findings)
+    session_report(ctx, sfindings)
     # vacuity guard (a rejected file may hide what it would have exercised: verdicts go first)
     missing = [t for t in REQUIRED if ex.get(t, 0) == 0]
     known = {k["signature"] for k in core.load_known() if k.get("property") == PID and k.get("status") == "open"}
@@ -574,6 +790,16 @@ def replay(ctx, path):
     with open(path) as f:
         obj = json.load(f)
     vh = core.build_vh()
+    if "session" in obj["case"]:
+        # the whole history is executed again in one new process
+        sf, _, _, _ = session_exec_and_judge(ctx, vh, obj["case"]["session"]["histories"], name="replay-session")
+        for f in sf:
+            print("replay: %s (export %d of history %d)" % (f["sig"], f["p"], f["h"]))
+        session_report(ctx, sf)
+        ctx.rule = "replay of one recorded export history"
+        ctx.nontrivial = 1
+        ctx.sample({"replayed": path})
+        return
     findings, ex, _ = execute_and_judge(ctx, vh, [obj["case"]["scene"]], name="replay")
     for f in findings:
         print("replay: %s (%s file)" % (f["sig"], f["kind"]))
